@@ -16,7 +16,7 @@ CHECKS = {
     "C02": dict(
         level="model_checking",
         technique="TLA+ transcription of GM/T 0003.4 (SM2.tla: KDF, C1/C2/C3, retry on zero key stream, on-curve requirement) evaluated by TLC, anchored by the standard's encryption example; expected ciphertexts, a TLC-found nonce that forces the retry, and TLC-built invalid-curve ciphertexts replayed into Encrypt/Decrypt/EncryptAsn1/DecryptAsn1",
-        text="TLC computes the exact ciphertext (both orderings and the ASN.1 form) for scripted nonces over boundary and short-coordinate keys and lengths 0, 1, 31..33, 63..65, 4096 (dense in thorough); it searches a nonce whose KDF byte is zero so that the real Encrypt must draw twice; decryption must return the plaintext for the right key and an error for another key, every tried single-byte change, every truncation, and for ciphertexts that TLC builds on curves with another b.",
+        text="TLC computes the exact ciphertext (both orderings and the ASN.1 form) for scripted nonces over boundary and short-coordinate keys and lengths 0, 1, 31..33, 63..65, 4096 (dense in thorough); it searches a nonce whose KDF byte is zero so that the real Encrypt must draw twice; sparse scalars as key and nonce; a sweep of 1000 (4000) nonces x 3 short lengths in the real code hands every odd outcome to the specification; decryption must return the plaintext for the right key and an error for another key, every tried single-byte change of the raw form, every single-byte change of the ASN.1 form, every truncation, and for ciphertexts that TLC builds on curves with another b.",
         note="Trusts TLC, BigInteger, SM3.tla. Exhaustive toy-group enumeration is done for signatures (C01) only.",
         ref="DESIGN.md section 5 C02"),
     "C03": dict(
@@ -34,7 +34,7 @@ CHECKS = {
     "C05": dict(
         level="model_checking",
         technique="executable TLA+ transcription of GM/T 0002 (SM4.tla: algebraic S-box, CK by formula, KAT-checked) evaluated by TLC; the code's sbox/T-tables/FK/CK dumped through a verif accessor and compared entry-by-entry with the formulas by TLC; TLC-computed vectors and TLC-enumerated Encrypt/Decrypt call sequences on one object replayed and validated (CipherObjTrace)",
-        text="Every entry of the five tables and of FK/CK is compared with the standard's formula (exhaustive over the tables, so a wrong entry is found even if no vector reaches it); Enc/Dec are compared with TLC's values for the standard example, every single-bit key and block, byte fills and pseudo-random pairs; all call sequences of depth 3 (4 thorough) over Encrypt/Decrypt x 3 blocks x aliasing on one object are replayed and each result validated by TLC; key lengths 0..64.",
+        text="Every entry of the five tables and of FK/CK is compared with the standard's formula (exhaustive over the tables, so a wrong entry is found even if no vector reaches it); Enc/Dec are compared with TLC's values for the standard example, every single-bit key and block, byte fills, pseudo-random pairs and pairs that TLC found to put a half-word 0000 / ffff into the S-box layer of some round; source and destination at every alignment; keys handed over in one reused, wiped buffer; all call sequences of depth 3 (4 thorough) over Encrypt/Decrypt x 3 blocks x aliasing on one object are replayed and each result validated by TLC; key lengths 0..64 with four kinds of content.",
         note="Trusts TLC + Bitwise, the GM/T 0002 example anchoring SM4.tla, and that VerifTables returns the arrays cryptBlock reads. Correctness for all 2^256 (key, block) pairs follows only insofar as the round structure is the standard's and the tables are right; it is decided on the enumerated vectors.",
         ref="DESIGN.md section 5 C05"),
     "C06": dict(
@@ -51,9 +51,9 @@ CHECKS = {
         ref="DESIGN.md section 5 C07"),
     "C08": dict(
         level="model_checking",
-        technique="TLA+ symbolic model TLCPAdv of the GM/T 0024 ECC handshake with an attacker (Authentication, Agreement checked by TLC); every attacker scenario realised against real endpoints through generated PKI, wrong private keys, verif peer fault points and a field-aware man in the middle",
-        text="TLC checks Authentication (client completes only with a peer holding both certified keys and proving it in this session; server with verified client auth only with the key holder over this transcript) and Agreement on the symbolic model for every single-deviation scenario (7 certificate kinds per slot, wrong key per slot, SKE omitted/replayed/mis-signed/over another encryption certificate, client certificate kinds, wrong client key, replayed CertificateVerify, 13 field rewrites, a changed byte at 8 (64 thorough) positions of each plaintext handshake message, verification off); each scenario runs against the real client and server and the set of endpoints that complete must be the model's.",
-        note="Symbolic cryptography (signatures unforgeable, encryption opaque). GMSSL suites only; the TLS 1.x path relies on C06 interop. One deviation per scenario.",
+        technique="TLA+ symbolic model TLCPAdv of the authenticated handshake with an attacker - GM/T 0024 ECC, TLS RSA key transport and TLS ECDHE_RSA, CBC and AEAD suite each, all five client-auth policies (Authentication, Agreement, LaxPoliciesAccept checked by TLC); every attacker scenario realised against real endpoints through generated SM2 and RSA PKI, wrong private keys, verif peer fault points (GMSSL) or the same deviation made on the wire (TLS), and a field-aware man in the middle",
+        text="TLC checks Authentication (client completes only with a peer holding both certified keys and proving it in this session; server with verified client auth only with the key holder over this transcript) and Agreement on the symbolic model for every single-deviation scenario under six protocol combinations and five client-auth policies (7 certificate kinds per slot, wrong key per slot, SKE omitted/replayed/mis-signed/over another encryption certificate, client certificate kinds, wrong client key, replayed CertificateVerify, 13 field rewrites, a changed byte at 8 (64 thorough) positions of each plaintext handshake message, verification off); each scenario runs against the real client and server and the set of endpoints that complete must be the model's.",
+        note="Symbolic cryptography (signatures unforgeable, encryption opaque). TLS scenarios use RSA certificates (ECDSA server certificates are not exercised). One deviation per scenario.",
         ref="DESIGN.md section 5 C08"),
     "C09": dict(
         level="fault_enumeration",
@@ -82,7 +82,7 @@ CHECKS = {
     "C13": dict(
         level="exploration",
         technique="TLA+ transcription of the GM/T 0003.3 key exchange (x-bar truncation, t, V, KDF, S1/S2 with fixed 32-byte coordinates) over ECurve/BigNat/SM3 evaluated by TLC as a table spec; replayed into KeyExchangeA/KeyExchangeB",
-        text="TLC computes K, S1, S2 for both roles (asserting on the specification that initiator and responder reach the same point) over random and boundary keys, identities of 0..8191 bytes, key lengths 1..1024, and - found by TLC search - long-term, ephemeral and shared points whose coordinates have leading zero bytes; both real parties must return exactly these values; a peer ephemeral value off the curve or at infinity must give an error.",
+        text="TLC computes K, S1, S2 for both roles (asserting on the specification that initiator and responder reach the same point) over random and boundary keys, identities of 0..8191 bytes, key lengths 1..1024, and - found by TLC search - long-term, ephemeral and shared points whose coordinates have leading zero bytes, sparse scalars, keys chosen so that t = 0 mod n (both parties must fail); both real parties must return exactly these values; a peer ephemeral value off the curve, at infinity or outside [0, p) must give an error; a sweep of 1500 (6000) exchanges with key lengths 1 and 2 on the same key objects, whose errors, disagreements, all-zero keys and last exchange are judged against the table as observed.",
         note="Exploration over enumerated cases on the real curve only (keyExchange is hard-wired to P256Sm2). Trusts BigInteger, SM3.tla.",
         ref="DESIGN.md section 5 C13"),
     "C14": dict(
@@ -100,7 +100,7 @@ CHECKS = {
     "C16": dict(
         level="model_checking",
         technique="TLA+ spec TLCPResume (client LRU cache, ordered ticket keys, resumption gate, configuration changes, ticket tampering) model-checked by TLC; TLC-generated histories (exhaustive connect-change-change-connect, simulated 6-op histories) replayed against real gmtls endpoints sharing one client session cache",
-        text="TLC checks on all histories of 6-7 operations (cache capacity 1 and 2) that a resumed connection continues an earlier full handshake with the same identity, suite and client-certificate status; every history connect / <=2 changes / connect and hundreds of simulated histories (rotations keeping or dropping old keys, suite list and ClientAuth changes on either side, tickets disabled, tampering per ticket region, cache capacity 1..3, two server names, GMSSL and TLS) run on the real code: each connection must resume exactly when the gate holds, never fail, agree on DidResume, suite and keys on both ends, carry the original master secret and client identity; single-byte ticket changes (every byte in thorough) must fall back to a full handshake.",
+        text="TLC checks on all histories of 6-7 operations (cache capacity 1 and 2) that a resumed connection continues an earlier full handshake with the same identity, suite and client-certificate status; every history connect / <=2 changes / connect and hundreds of simulated histories (rotations keeping or dropping old keys, suite list and ClientAuth changes on either side, tickets disabled, tampering per ticket region, cache capacity 1..3, two server names, GMSSL and TLS) run on the real code: each connection must resume exactly when the gate holds, fail exactly when the client's certificate does not satisfy the server's policy in a full handshake either (untrusted client certificates are part of the model), agree on DidResume, suite and keys on both ends, carry the original master secret and client identity; single-byte ticket changes (every byte in thorough) must fall back to a full handshake.",
         note="Server CipherSuites are always listed explicitly (the statement's positive clause). Trusts the accessors that expose the ticket of a cached client session. Histories beyond 7 operations are not model-checked.",
         ref="DESIGN.md section 5 C16"),
     "C17": dict(
@@ -123,8 +123,8 @@ CHECKS = {
         ref="DESIGN.md section 5 C19"),
     "C20": dict(
         level="model_checking",
-        technique="TLA+ specs ConcSm4 (block function as four steps on scratch storage; TLC refutes 'as if alone' for object-owned scratch, proves it for call-owned scratch and enumerates every interleaving, each replayed deterministically through verif gates on one real cipher object), ConcConn / ConcConnMC (Write / Read / Close of one connection as atomic operations on two byte streams, consequences model-checked) and ConcConnTrace (histories of real connections, invocation and response stamped by one counter, validated by TLC searching the linearisation points); stress drivers for every shared object of the statement whose results are compared with the sequential ones, all run under the Go race detector as the sensor of the no-data-race clause",
-        text="All 70 (thorough: 34 650) interleavings of 2 (3) concurrent Encrypt/Decrypt calls x 4 steps on one sm4 cipher are executed through the gates and each call must return its sequential block. Drivers with 2..32 goroutines: package-level sign / verify / encrypt / decrypt / SM3 / SM4-ECB / certificate parse / chain verification on separate data; one cipher.Block shared raw and under CBC; one hash constructor under HMAC; one root + intermediate CertPool; PKCS#7 parse and envelope; first use of the curve in a fresh process; SetIV with the CBC helper (result must be the CBC encryption under one of the installed IVs); GMSSL and TLS 1.2 handshakes on one server Config with session tickets, key rotation every 3 ms and a shared client session cache. Connection histories: GMSSL (CBC) and TLS 1.2 (GCM) connections over loopback TCP with 1..4 writers and 1..2 readers on one end, 1..3 writers on the other, self-describing messages of 64 B..40 kB, Close after or during the traffic; every history must be explained by atomic operations (contiguous payloads, per-writer order, no successful Write after Close, errors only once an end has closed). Any race report whose top frames are in the library is a violation.",
+        technique="TLA+ specs ConcSm4 (block function as four steps on scratch storage; TLC refutes 'as if alone' for object-owned scratch, proves it for call-owned scratch and enumerates every interleaving, each replayed deterministically through verif gates on one real cipher object), ConcConn / ConcConnMC (Write / Read / Close / CloseWrite of one connection as atomic operations on two byte streams, consequences model-checked) and ConcConnTrace (histories of real connections, invocation and response stamped by one counter, validated by TLC searching the linearisation points), ConcConfig / ConcConfigMC / ConcConfigTrace (the ticket-key list of one shared server Config: atomic rotation, a handshake's Open and Seal instants; histories of real GMSSL and TLS servers under continuous re-installation of the keys validated the same way); stress drivers for every shared object of the statement whose results are compared with the sequential ones, all run under the Go race detector as the sensor of the no-data-race clause",
+        text="All 70 (thorough: 34 650) interleavings of 2 (3) concurrent Encrypt/Decrypt calls x 4 steps on one sm4 cipher are executed through the gates and each call must return its sequential block. Drivers with 2..32 goroutines: package-level sign / verify / encrypt / decrypt / SM3 / SM4-ECB / certificate parse / chain verification on separate data; one cipher.Block shared raw and under CBC; one hash constructor under HMAC; one root + intermediate CertPool; PKCS#7 parse and envelope; first use of the curve in a fresh process; SetIV with the CBC helper (result must be the CBC encryption under one of the installed IVs); GMSSL and TLS 1.2 handshakes on one server Config with session tickets, key rotation every 3 ms and a shared client session cache. Connection histories: GMSSL (CBC) and TLS 1.2 (GCM) connections over loopback TCP with 1..4 writers and 1..2 readers on one end, 1..3 writers on the other, self-describing messages of 64 B..40 kB, Close after or during the traffic, or a half close (CloseWrite) in the middle while the peer keeps writing; every history must be explained by atomic operations (contiguous payloads, per-writer order, no successful Write after Close, errors only once an end has closed). Config histories: 2..7 clients reconnect with their latest ticket during 3..19 key rotations; resumption, re-issue and the key of every new ticket must be explained by an atomic order of rotations and of each handshake's two instants. Any race report whose top frames are in the library is a violation.",
         note="Exhaustive interleaving only for the sm4 object (gated); the connection and Config are explored by stress under the race detector plus history validation, which sees what the scheduler happens to produce. A failed Write is modelled as non-atomic (its records may be read before the close that fails it). Read after the endpoint's own Close may still return bytes that had arrived. Races in the harness itself abort the check as an infrastructure error.",
         ref="DESIGN.md section 5 C20"),
 }
